@@ -401,6 +401,14 @@ def job_force(cls, role):
         # Ft = |reference torque| / (reference diameter / 2): load torque for the master, driving torque for the slave
         O.prove("force:=|reference-torque|/(reference-diameter/2)", L.eq(L.mul(H.SI(F), L.div(dia, 2)), L.absv(L.num(Tref))),
                 props=("C09", "C07"))
+        if cls == "WormGear":
+            # The clause above is a recorded known finding for this class (undocumented factor tan(helix angle)).  So that
+            # any OTHER deviation is still reported, the behaviour the library is known to have is pinned down exactly:
+            # same reference torque by role, same diameter, times tan(helix angle).
+            beta = H.SI(q["beta"])
+            tb = (sym.UF["tan"](sym.term_of(beta)) if not c.concrete else __import__("math").tan(float(beta)))
+            O.prove("force[WormGear]:=|reference-torque|/(reference-diameter/2)*tan(helix-angle)(recorded library behaviour)",
+                    L.eq(L.mul(H.SI(F), L.div(dia, 2)), L.mul(L.absv(L.num(Tref)), tb)), props=("C09",))
     return Job(f"gears.force[{cls},{role}]", body, ("C09", "C17", "C07"),
                functions=[f"{MO}.{_mod(cls)}.{cls}.compute_tangential_force"], meta=dict(family="gear-force", cls=cls, role=role))
 
